@@ -178,6 +178,23 @@ Theorem c02_typing_example :
   Example.ehl [] Example.ex_body [] [] /\ Example.eht [] (fst (nf_rt_list false Example.ex_body)) [] [] /\ ~ Example.eht [] Example.ex_body [] [].
 Proof. exact (conj Example.ex_hl (conj Example.ex_nf_ht Example.ex_not_ht)). Qed.
 
+(* ---- a VALIDATOR for the integer / memory core (Model/TypeCore.v: the standard algorithm on structured bodies - operand stack with unknowns,
+   unreachable flag - over the 98 operators of Model/SemCore.v with their concrete signatures; Proofs/TypeCore.v):
+   it decides exactly the declarative typing (given that the block types exist), and it ACCEPTS THE EMITTED BODY of every body it accepts.
+   Compared with wasmparser's verdict on generated valid and deliberately type-broken bodies (Run/TypeCoreRun.v). *)
+From WV Require Import Model.TypeCore Proofs.TypeCore.
+Theorem c02_core_validator_decides_the_declarative_typing : forall e body,
+  check_body e body = true <-> bts e body /\ cht e [te_results e] body [] (te_results e).
+Proof. exact check_body_iff. Qed.
+
+Theorem c02_core_validator_accepts_the_emitted_body : forall e body,
+  check_body e body = true -> check_body e (fst (nf_rt_list false body)) = true.
+Proof. exact check_body_nf. Qed.
+
+Theorem c02_core_validator_sound_for_the_emitted_body : forall e body,
+  check_body e body = true -> cht e [te_results e] (fst (nf_rt_list false body)) [] (te_results e).
+Proof. exact check_body_nf_typed. Qed.
+
 Print Assumptions c02_parsed_module_closed.
 Print Assumptions c02_gc_keeps_closed.
 Print Assumptions c02_closed_means_every_reference_indexed.
@@ -199,3 +216,6 @@ Print Assumptions c02_emitted_body_typeable_iff_kept_input_typeable.
 Print Assumptions c02_declarative_typing_implies_kept_typing.
 Print Assumptions c02_emitted_body_typing_on_the_renamed_operators.
 Print Assumptions c02_typing_example.
+Print Assumptions c02_core_validator_decides_the_declarative_typing.
+Print Assumptions c02_core_validator_accepts_the_emitted_body.
+Print Assumptions c02_core_validator_sound_for_the_emitted_body.
